@@ -285,9 +285,9 @@ fn models(tier: Tier) -> Vec<(String, Arc<M>, Vec<Plan>)> {
     for mode in [SchedulingMode::Enhanced, SchedulingMode::Classic] {
         if tier.is_quick() {
             let m = Arc::new(M::new(2, mode, true));
-            out.push((m.label(), m, vec![Plan::Full { depth: 5 }]));
+            out.push((m.label(), m, vec![Plan::Full { depth: 6 }]));
             let m = Arc::new(M::new(2, mode, false));
-            out.push((m.label(), m, vec![Plan::Full { depth: 4 }]));
+            out.push((m.label(), m, vec![Plan::Full { depth: 5 }]));
             let m = Arc::new(M::new(1, mode, false));
             out.push((m.label(), m, vec![Plan::Full { depth: 5 }]));
         } else {
